@@ -331,3 +331,21 @@ def large_container_programs(rng, n, family):
                 lines.append(X(a, [k]))
             lines.append(X([b"XRANGE", k, b"-", b"+"], [k], full=True))
     return lines
+
+
+# ---------------------------------------------------------------------------------------------------------------------------------------
+# "a reply held across a write" (engine alias, harness/alias.go; source fact F7): the reply OBJECT of every reading command of the family is kept
+# unencoded while every writing command of the family runs on the same key (strings: also on a neighbour created the same way), then encoded -
+# it must read as it did when taken.  Sequential and deterministic; quick tier of C01, C09, C10, C11, C12, C18.
+def alias_probe(R, ctx, family, also=()):
+    from . import aliassuite
+    rule = R.rule
+    bad = aliassuite.run_alias(R, ctx, [family] + [f for f in also if f != family])
+    R.rule = (rule or "") + (" Engine alias: the reply object of every reading command of the family is kept unencoded across every writing command on the "
+                             "same key, then encoded - it must equal the encoding taken at once (no stored byte slice is rewritten in place, fact F7).")
+    return bad
+
+
+def alias_replay(R, payload):
+    from . import aliassuite
+    return aliassuite.replay_alias(R, payload)
